@@ -174,6 +174,34 @@ C08_SCENARIO(eventloopthread_dtor)
   delete t;                     // unlocked read of loop_
 }
 
+// ---- forced schedules: see C08_tsan.h
+namespace c08 { Stall g_stall; }
+extern "C" void __real___tsan_read8(void* addr);
+extern "C" void __real___tsan_write4(void* addr);
+static inline __attribute__((no_sanitize("thread"), always_inline)) void c08_maybe_stall(void* a, int w)
+{
+  if (c08::g_stall.armed.load(std::memory_order_relaxed) &&
+      a == c08::g_stall.addr.load(std::memory_order_relaxed) &&
+      w == c08::g_stall.write.load(std::memory_order_relaxed) &&
+      static_cast<unsigned long>(pthread_self()) == c08::g_stall.thread.load(std::memory_order_relaxed))
+  {
+    c08::g_stall.armed.store(0, std::memory_order_relaxed);
+    c08::g_stall.stalled.store(1, std::memory_order_relaxed);
+    for (int i = 0; i < 50000 && c08::g_stall.release.load(std::memory_order_relaxed) == 0; ++i) ::usleep(200);
+  }
+}
+extern "C" __attribute__((no_sanitize("thread"))) void __wrap___tsan_read8(void* addr)
+{
+  c08_maybe_stall(addr, 0);
+  // tail call: the runtime takes its caller's return address as the pc of the access - it must be the instrumented code's
+  [[clang::musttail]] return __real___tsan_read8(addr);
+}
+extern "C" __attribute__((no_sanitize("thread"))) void __wrap___tsan_write4(void* addr)
+{
+  c08_maybe_stall(addr, 1);
+  [[clang::musttail]] return __real___tsan_write4(addr);
+}
+
 int main(int argc, char** argv)
 {
   Logger::setLogLevel(Logger::WARN);
